@@ -65,7 +65,7 @@ RECIPES = ["noise", "noise", "sine+noise", "trend+noise", "offset+noise", "multi
 
 
 def gen_data_spec(rw, N, channels, recipes=None):
-    return {
+    spec = {
         "N": int(N),
         "channels": int(channels),
         "recipe": rw.choice(recipes or RECIPES),
@@ -74,6 +74,9 @@ def gen_data_spec(rw, N, channels, recipes=None):
         "offset": rw.choice([0.0, 0.0, 1.0, -5.0, 1e3]),
         "coupling": rw.choice([0.0, 0.5, 1.0, -2.0]),
     }
+    if spec["recipe"] in ("sine+noise", "line+floor"):
+        spec["line_f"] = round(rw.uniform(0.05, 0.45), 4)     # line frequency in cycles/sample, known to the generator
+    return spec
 
 
 def make_record(spec):
@@ -88,6 +91,8 @@ def make_record(spec):
             return g.normal(size=N)
         if rec == "sine+noise":
             f = g.uniform(0.01, 0.45)
+            if spec.get("line_f") is not None:
+                f = spec["line_f"]
             return np.sin(2 * np.pi * f * t + g.uniform(0, 6)) + 0.1 * g.normal(size=N)
         if rec == "trend+noise":
             c = g.normal(size=3)
@@ -113,6 +118,8 @@ def make_record(spec):
             return np.cumsum(g.normal(size=N))
         if rec == "line+floor":      # > 150 dB of dynamic range between the line and the floor
             f = g.uniform(0.05, 0.45)
+            if spec.get("line_f") is not None:
+                f = spec["line_f"]
             return np.sin(2 * np.pi * f * t + g.uniform(0, 6)) + 1e-8 * g.normal(size=N)
         if rec == "steepred":        # PSD ~ 1/f^4: doubly integrated noise
             return np.cumsum(np.cumsum(g.normal(size=N)))
